@@ -10,13 +10,14 @@ import UPVerif.Spec.MASuccessor
 /-!
 Line-protocol handler for C37.
 
-  (ma cond <maproblem> (states <state>*))   answer: (cond (as-found R) (repaired R) (sem S*))
+  (ma cond <maproblem> (states <state>*))   answer: (cond R (sem S*))
   (ma disj <maproblem> (states <state>*))   answer: (disj R (sem S*))
   R ::= (raise conflict) | (raise simplifier) | (compiled …)          (`MA.compiledToSexp`)
 
-`<state>` lists one value per declared ground fluent (arity 0) in canonical order: environment
-fluents, then every agent's fluents, declaration order.  For each state, `S` lists — per agent, per
-ORIGINAL action, in order — the reference successor `MASpec.successor` (`none`, or the values of the
+`<state>` lists one value per declared ground fluent in canonical order: environment fluents, then every
+agent's fluents, declaration order; the ground instances of a fluent with parameters (user types only) in
+the order of `itertools.product` over `problem.objects(type)`.  For each state, `S` lists — per agent, per
+ORIGINAL action, in order — the reference successor `MASpec.successorIn` (`none`, or the values of the
 successor in the same canonical order) followed by the truth value of every shared goal: this ties
 the Python twin of the reference semantics used by the property oracle to `Spec/MASuccessor.lean`.
 
@@ -51,10 +52,14 @@ def resultSexp : Option Compiled → Sexp
   | none => .list [.atom "raise", .atom "conflict"]
   | some c => if poisoned c then .list [.atom "raise", .atom "simplifier"] else compiledToSexp c
 
-/-- all declared ground fluents in canonical order (arity 0 only) -/
+/-- the ground instances of one declared fluent, `q` = its name in the agent-indexed name space -/
+def groundKeys (O : Problem) (q : FluentRef → FluentRef) (r : FluentRef) : List GKey :=
+  (Sim.cartesian (r.sig.map (Sim.tyDomain O))).map (fun os => (q r, os.map Val.o))
+
+/-- all declared ground fluents in canonical order -/
 def allKeys (P : MAProblem) : List GKey :=
-  P.env.map (fun d => (d.ref, [])) ++
-  P.agents.flatMap (fun a => a.fluents.map (fun f => (qual a.name f.ref, [])))
+  P.env.flatMap (fun d => groundKeys P.objProblem id d.ref) ++
+  P.agents.flatMap (fun a => a.fluents.flatMap (fun f => groundKeys P.objProblem (qual a.name) f.ref))
 
 def stateOf (keys : List GKey) (vals : List Val) : GState :=
   fun k => (keys.zip vals).lookup k
@@ -62,7 +67,7 @@ def stateOf (keys : List GKey) (vals : List Val) : GState :=
 def semOf (P : MAProblem) (keys : List GKey) (g : GState) : Sexp :=
   .list (.atom "st" ::
     (P.agents.flatMap (fun ag => ag.actions.map (fun a =>
-      match successor (viewOf ag) g a.pre a.effs with
+      match successorIn P.objProblem (viewOf ag) g a.pre a.effs with
       | none => Sexp.atom "none"
       | some g' => .list (keys.map (fun k => optValToSexp (g' k)))))) ++
     [.list (.atom "goals" :: P.goals.map (fun γ => Sexp.ofBool (goalHolds g γ)))])
@@ -86,9 +91,7 @@ def handle : Sexp → Sexp
         let sem := Sexp.list (.atom "sem" :: sts.map (fun vs => semOf P keys (stateOf keys vs)))
         match which with
         | "cond" =>
-          .list [.atom "cond",
-                 .list [.atom "as-found", resultSexp (compileCond .asFound simpTotal P)],
-                 .list [.atom "repaired", resultSexp (compileCond .repaired simpTotal P)], sem]
+          .list [.atom "cond", resultSexp (compileCond simpTotal P), sem]
         | "disj" =>
           .list [.atom "disj", resultSexp (compileDisj simpTotal (dnf simpTotal) P), sem]
         | _ => .atom "bad-case"
